@@ -5,6 +5,7 @@ import GscribModel.Props.C07
 import GscribModel.Props.C06
 import GscribModel.Props.C03
 import GscribModel.Props.C20
+import GscribModel.Props.C11
 /-! # C01 and C02 for the translated source
 
 `MotionTie_run` (every history: running the translated source of the builder's commands is running the model) composed with the
@@ -310,3 +311,34 @@ theorem SourceTie_C20 (b : B) (req : Pt) (ps : VParams) (h : Rat)
   obtain ⟨_, _, _, h4⟩ := MotionTie_move b req ps h hd
   rw [← h4]
   exact (C20_hook_calls_move b (VPt.ofPt req) ps h req (ofPt_fin req) hb).1
+
+/-! ## C11 (plain moves) read off the translated source -/
+namespace GscribModel.MotionTie
+theorem vptOf_ofPt (t : Pt) : vptOf t = VPt.ofPt t := by
+  obtain ⟨x, y, z⟩ := t
+  cases x <;> cases y <;> cases z <;> rfl
+end GscribModel.MotionTie
+
+open GscribModel.MotionTie in
+/-- **C11 (plain moves) for the translated source**: two builders at the same tracked position with the same bounds and no hooks,
+    one in absolute and one in relative mode; the translated `move()` given the waypoint in the first and the offset to it in the
+    second has the same outcome and leaves the same tracked position. -/
+theorem SourceTie_C11 (bA bR : B) (t : Pt) (ps : VParams) (h : Rat)
+    (hax : bA.axes = bR.axes) (hA : bA.rel = false) (hR : bR.rel = true)
+    (hb : bA.bounds = bR.bounds) (hhA : bA.hooks = []) (hhR : bR.hooks = []) (hd : DoubleFS ps) :
+    let gA := GCodeCore.move (absB bA) t ps h
+    let gR := GCodeCore.move (absB bR) (offsetOf bR.axes.resolve t) ps h
+    outOf gA.2 = outOf gR.2 ∧ (gA.2 = none → gA.1._current_axes = gR.1._current_axes) := by
+  have hdA : DoubleFS (if bA.hooks.isEmpty then ps else applyHooks bA h ps) := by rw [hhA]; exact hd
+  have hdR : DoubleFS (if bR.hooks.isEmpty then ps else applyHooks bR h ps) := by rw [hhR]; exact hd
+  obtain ⟨a1, a2, _, _⟩ := MotionTie_move bA t ps h hdA
+  obtain ⟨r1, r2, _, _⟩ := MotionTie_move bR (offsetOf bR.axes.resolve t) ps h hdR
+  obtain ⟨c1, c2⟩ := C11_move_same bA bR t false ps h hax hA hR hb hhA hhR
+  rw [vptOf_ofPt, vptOf_ofPt] at c1 c2
+  refine ⟨by rw [← a1, ← r1, c1], fun _ => ?_⟩
+  have ea := congrArg BSt._current_axes a2
+  have er := congrArg BSt._current_axes r2
+  have ea' : (GCodeCore.move (absB bA) t ps h).1._current_axes = (step bA (.move false (VPt.ofPt t) ps h)).b.axes := ea.symm
+  have er' : (GCodeCore.move (absB bR) (offsetOf bR.axes.resolve t) ps h).1._current_axes =
+      (step bR (.move false (VPt.ofPt (offsetOf bR.axes.resolve t)) ps h)).b.axes := er.symm
+  rw [ea', er', c2]
